@@ -235,6 +235,8 @@ let run_multi (w: string list) : unit =
      | ["T"; sec] -> Printf.printf "T %s\n" sec
      | ["X"; k] when int_of_string k >= 0 && int_of_string k < k_n && alive.(int_of_string k) ->
          alive.(int_of_string k) <- false; Printf.printf "X %s\n" k
+     | ["O"; k] when int_of_string k >= 0 && int_of_string k < k_n && not alive.(int_of_string k) ->
+         alive.(int_of_string k) <- true; Printf.printf "O %s\n" k
      | _ -> Printf.printf "BADOP %s\n" line);
     flush stdout
   done;
